@@ -15,7 +15,8 @@ RULE = (
     "Oracle: e = expand_macros(c) (also preserve_definitions=True) contains no call to a macro anywhere; the "
     "independently extracted meaning of e equals the reference meaning under call-by-substitution (subcircuit "
     "nodes, counts, loop counts and block kinds included) and equals the extracted meaning of c with numbers "
-    "compared by type and repr; constants, registers, native gates, pulse imports carried over (==); macros empty "
+    "compared by type and repr; the same reading of e in a SECOND environment (every let given another value the "
+    "reference keeps valid) equals the reference meaning there, so a let handed to a macro is still a reference; constants, registers, native gates, pulse imports carried over (==); macros empty "
     "resp. unchanged. Arity part: a prebuilt call with k+-1 arguments to a k-parameter macro is placed at a drawn "
     "position (top level / in a block / in a loop) and expand_macros must raise JaqalError. Non-trivial = >= 2 macro "
     "levels, or a call inside loop/parallel/subcircuit, or a parameter used as index/array/count. distinct = text."
@@ -86,6 +87,10 @@ def check(case, mode):
         raise Skip()
     if not same_meaning(m_ref, m_c):
         raise Skip()  # parser/scoping problem: C07's business
+    # A let passed to (or used in) a macro is still that let after expansion: the expansion is read
+    # a second time in an environment that gives every let another value (kept valid by the
+    # reference), as a later fill_in_let with overrides would
+    env2, m_ref2 = _second_environment(prog, c)
     for preserve in (False, True):
         tag = "preserve" if preserve else "plain"
         st_, e = guard(expand_macros, c, preserve_definitions=preserve, what="expand_macros")
@@ -103,6 +108,13 @@ def check(case, mode):
             if "sub" in show(m_ref) and "sub" not in show(m_e):
                 kind = "subcircuit-annotation-lost"
             raise Violation(kind, f"[{tag}] expected {show(m_ref)}\ngot      {show(m_e)}\n--- program:\n{text}")
+        if env2:
+            try:
+                m_e2 = extract.Extractor(e, env2).meaning()
+            except extract.ExtractError as ex:
+                raise Violation("expanded-unresolvable", f"under let values {env2}: {ex}\n--- program:\n{text}")
+            if not same_meaning(m_ref2, m_e2):
+                raise Violation("let-reference-frozen", f"[{tag}] with the lets valued {env2}: expected {show(m_ref2)}\ngot      {show(m_e2)}\n--- program:\n{text}")
         if not same_meaning(m_c, m_e, strict=True):
             raise Violation("number-altered", f"[{tag}] {show(m_c)}\n!= {show(m_e)}\n--- program:\n{text}")
         if not (e.constants == c.constants):
@@ -122,8 +134,37 @@ def check(case, mode):
     ctx = _call_contexts(prog)
     levels = "macro-calls-macro" in feats
     nt = levels or bool(ctx & {"loop", "par", "sub"}) or bool(feats & {"param-as-index", "param-as-array", "param-as-count"})
-    classes = sorted(f for f in feats if f.startswith(("param-", "macro", "subcircuit", "usepulses"))) + ["call-in:" + x for x in sorted(ctx)]
+    classes = sorted(f for f in feats if f.startswith(("param-", "macro", "subcircuit", "usepulses"))) + ["call-in:" + x for x in sorted(ctx)] + (["second-environment"] if env2 else [])
     return {"nontrivial": nt, "classes": classes, "key": mode + text, "sample": {"mode": mode, "text": text}}
+
+
+def _second_environment(prog, c):
+    from ..model import is_int
+
+    env = {}
+    for n, v in prog["lets"]:
+        for cand in ([v + 1, v - 1, v + 2, 0] if is_int(v) else [v + 0.5]):
+            if cand == v:
+                continue
+            trial = dict(env)
+            trial[n] = cand
+            try:
+                Ref(prog, trial).validate()
+            except Invalid:
+                continue
+            if gen.frozen_default_risk(prog, trial):
+                continue
+            env = trial
+            break
+    if not env:
+        return {}, None
+    try:
+        m_ref2 = Ref(prog, env).meaning()
+        if not same_meaning(m_ref2, extract.Extractor(c, env).meaning()):
+            return {}, None  # the unexpanded circuit itself is read differently: not this pass
+    except (Invalid, extract.ExtractError):
+        return {}, None
+    return env, m_ref2
 
 
 def _arity_case(ch):
